@@ -562,7 +562,7 @@ func transitionLineBreakState(state int, r rune, b []byte, str string) (newState
 	// LB25 (look ahead).
 	if rule > 250 &&
 		(state == lbPR || state == lbPO) &&
-		nextProperty == prOP || nextProperty == prHY {
+		(nextProperty == prOP || nextProperty == prHY) {
 		var r rune
 		if b != nil { // Byte slice version.
 			r, _ = utf8.DecodeRune(b)
